@@ -23,6 +23,8 @@ mod alloc;
 mod c14;
 mod c05;
 mod c16;
+mod c19;
+mod c18;
 mod util;
 
 use std::path::PathBuf;
@@ -85,6 +87,8 @@ fn main() {
         "C14" => c14::run(&cfg, &mut out),
         "C05" => c05::run(&cfg, &mut out),
         "C16" => c16::run(&cfg, &mut out),
+        "C19" => c19::run(&cfg, &mut out),
+        "C18" => c18::run(&cfg, &mut out),
         other => {
             eprintln!("unknown property {}", other);
             std::process::exit(2);
